@@ -60,7 +60,7 @@ pub fn run_plans(check: &mut Check, plans: &[Plan], wall_budget: Duration) {
             // Each part gets an equal share of what is left of the budget.
             let left = wall_budget.saturating_sub(start.elapsed());
             bc.wall_cap = (left / (total - done).max(1) as u32).max(Duration::from_secs(2));
-            bc.state_cap = 6_000_000;
+            bc.state_cap = 4_000_000;
             done += 1;
             bc.focus = Some(check.prop);
             let st = bfs::explore(&bc, m.as_ref());
@@ -126,11 +126,14 @@ pub fn tier_plans(tier: Tier, notify_ops: bool) -> Vec<Plan> {
             Plan { n: 4, depth: if notify_ops { 5 } else { 7 }, cfgs: all_flag_cfgs(&[0], notify_ops, false).into_iter().filter(|c| !c.ap).map(|mut c| { c.reduced = true; c }).collect() },
         ],
         Tier::Thorough => vec![
-            Plan { n: 1, depth: 12, cfgs: all_flag_cfgs(&[0, 65535, 65534, 65532, 65530, 65526], notify_ops, true) },
-            Plan { n: 2, depth: 10, cfgs: all_flag_cfgs(&[0, 65535, 65533, 65531, 65528], notify_ops, true) },
-            Plan { n: 4, depth: 8, cfgs: all_flag_cfgs(&[0, 65535, 65532, 65529], notify_ops, true) },
-            Plan { n: 8, depth: 6, cfgs: all_flag_cfgs(&[0, 65533], notify_ops, false) },
-            Plan { n: 16, depth: 4, cfgs: all_flag_cfgs(&[0, 65534], notify_ops, false) },
+            Plan { n: 1, depth: 16, cfgs: all_flag_cfgs(&[0, 65535, 65534, 65532, 65530, 65526], notify_ops, true) },
+            Plan { n: 2, depth: 11, cfgs: all_flag_cfgs(&[0, 65535, 65533, 65531, 65528], notify_ops, true) },
+            Plan { n: 4, depth: 6, cfgs: all_flag_cfgs(&[0, 65535, 65532], notify_ops, true) },
+            Plan { n: 4, depth: 9, cfgs: all_flag_cfgs(&[0, 65533], notify_ops, false).into_iter().filter(|c| !c.ap).map(|mut c| { c.reduced = true; c }).collect() },
+            Plan { n: 8, depth: 5, cfgs: all_flag_cfgs(&[0, 65533], notify_ops, false).into_iter().filter(|c| !c.ap).collect() },
+            Plan { n: 8, depth: 7, cfgs: all_flag_cfgs(&[0], notify_ops, false).into_iter().filter(|c| !c.ap).map(|mut c| { c.reduced = true; c }).collect() },
+            Plan { n: 16, depth: 4, cfgs: all_flag_cfgs(&[0, 65534], notify_ops, false).into_iter().filter(|c| !c.ap).collect() },
+            Plan { n: 16, depth: 6, cfgs: all_flag_cfgs(&[0], notify_ops, false).into_iter().filter(|c| !c.ap).map(|mut c| { c.reduced = true; c }).collect() },
         ],
     }
 }
